@@ -62,6 +62,17 @@ def run(prop, tier, replay):
         rp = json.loads(open(replay).read())["replay"]
         scripts = [rp["script"]] if "script" in rp else []
         wide_n = 0
+        if rp.get("opcase"):
+            # one case of the full-width operator matrix, re-run in a child process
+            p = tpv(["stwide-child", "--opmatrix", 1, "--from", rp["k"], "--to", rp["k"] + 1], check=False)
+            end = [l.split(" ") for l in (p.stdout or "").splitlines() if l.startswith("END ")]
+            got = end[0][7:] if end and end[0][2] == "op" else ["Abort", "NONE", "0", "-1", "", "0"]
+            res, gt, gv, frames, er, ev = got
+            bad = (res in ("Panic", "Abort") or (res != "ok" and res not in VALUE_FAULTS) or frames != "0") if prop == "C01" else \
+                  (res not in ("Panic", "Abort") and (res != er or (res == "ok" and (gv != ev or gt != rp["t"]))))
+            if bad:
+                rep.violation(json.loads(open(replay).read())["key"], rp, f"operator matrix {rp['t']} {rp['op']}({rp['x']}, {rp['y']}): outcome {res} {gt}#{gv}, reference {er} {ev}")
+            return rep.finish({"evaluations": 1, "distinct_nontrivial": 1, "replayed": True}, [])
     else:
         mc = run_tlc("MCStCore", "MCStCore", workers=1, timeout=600, tag=f"mc-{prop}")
         n_rand = 700 if tier == "quick" else 12000
@@ -97,14 +108,38 @@ def run(prop, tier, replay):
                 nbad += 1
                 rep.violation(key, {"script": script, "cycle_event": ev, "why": b["why"], "reference_outcome": b["expected"]},
                               f"{script['profile']} program #{r[0]['script']}: {summary} (reference outcome {b['expected']})")
-    wide_rows = []
-    if wide_n:
+    wide_rows, op_rows = [], []
+    if wide_n or (prop == "C02" and not replay):
         wf = work / "wide.ndjson"
         p = tpv(["stwide", "--seed", s, "--runs", wide_n, "--out", wf], timeout=3000)
         wstats = json.loads(p.stdout.strip().splitlines()[-1])
         if wstats["accepted"] < 0.3 * wide_n:
             raise ToolError(f"wide generator: only {wstats['accepted']} of {wide_n} programs accepted")
-        wide_rows = [r for r in read_ndjson(wf) if r["a"] == "Outcome"]
+        wall = read_ndjson(wf)
+        wide_rows = [r for r in wall if r["a"] == "Outcome"]
+        # the full-width operator matrix (8 integer types incl. LINT / ULINT x 11 operator forms x boundary
+        # operands); expected outcome computed by the harness in exact arithmetic (TLC integers are 32-bit)
+        op_rows = [r for r in wall if r["a"] == "OpCase" and r["res"] != "rejected"]
+        if len(op_rows) < 10000:
+            raise ToolError(f"operator matrix: only {len(op_rows)} cases ran")
+        for r in op_rows:
+            what = f"{r['t']} {r['op']}({r['x']}, {r['y']})"
+            rp = {"opcase": True, "k": r["k"], "t": r["t"], "op": r["op"], "x": r["x"], "y": r["y"], "outcome": r["res"], "got": r["got"],
+                  "expected_outcome": r["expRes"], "expected": r["exp"]}
+            if prop == "C01":
+                if r["res"] in ("Panic", "Abort"):
+                    rep.violation(f"crash:{r['res']}:operator", rp, f"operator matrix {what}: {r['res']}")
+                elif r["res"] != "ok" and r["res"] not in VALUE_FAULTS:
+                    rep.violation(f"static-error:{r['res']}:operator", rp, f"operator matrix {what}: static-class error {r['res']}")
+                elif r["frames"] != 0:
+                    rep.violation("frames-left:operator", rp, f"operator matrix {what}: {r['frames']} frame(s) left")
+            elif prop == "C02":
+                if r["res"] in ("Panic", "Abort"):
+                    continue    # C01's
+                if r["res"] != r["expRes"]:
+                    rep.violation("fault-kind:operator-matrix", rp, f"operator matrix {what}: outcome {r['res']}, reference {r['expRes']}")
+                elif r["res"] == "ok" and (r["got"] != r["exp"] or r["gotT"] != r["t"]):
+                    rep.violation("value:operator-matrix", rp, f"operator matrix {what} = {r['gotT']}#{r['got']}, reference {r['t']}#{r['exp']}")
         # the abstract outcome contract of C01 (RuntimeCycle level): Ok | value-dependent fault, frames empty, no crash
         for r in wide_rows:
             if r["res"] == "Abort" and r.get("recursive"):
@@ -136,7 +171,7 @@ def run(prop, tier, replay):
     cov = {
         "states": max(mc["distinct"], 1) + len(rows), "transitions": max(mc["generated"], 1) + len(rows),
         "traces_validated_against_impl": len(runs),
-        "programs_typed_core": len(runs), "cycles_validated": ncyc, "programs_wide_generator": len(wide_rows),
+        "programs_typed_core": len(runs), "cycles_validated": ncyc, "programs_wide_generator": len(wide_rows), "operator_matrix_cases_full_width": len(op_rows),
         "profiles": {p: sum(1 for r in runs if scripts[r[0]["script"]]["profile"] == p) for p in ("matrix", "strict", "natural", "pous", "case")},
         "outcomes": outcomes,
         "runtime_cycle_runs_tag_checked": rc_runs, "runtime_cycle_events_tag_checked": rc_events,
@@ -149,6 +184,7 @@ def run(prop, tier, replay):
         "exhaustive": False,
     }
     return rep.finish(cov, assumptions=[
-        "StCore covers BOOL, SINT, INT, DINT, USINT, UINT, BYTE, WORD, one-dimensional arrays, structs, IF/CASE/FOR/WHILE/REPEAT/EXIT/CONTINUE/RETURN, FUNCTION calls (named arguments, defaults, VAR_IN_OUT, nested), FUNCTION_BLOCK instances with state; 64-bit, REAL and TIME values are only judged by the outcome contract (TLC integers are 32-bit)",
+        "StCore covers BOOL, SINT, INT, DINT, USINT, UINT, BYTE, WORD, one-dimensional arrays, structs, IF/CASE/FOR/WHILE/REPEAT/EXIT/CONTINUE/RETURN, FUNCTION calls (named arguments, defaults, VAR_IN_OUT, nested), FUNCTION_BLOCK instances with state; 64-bit, REAL and TIME values in whole programs are only judged by the outcome contract (TLC integers are 32-bit)",
+        "the operator x integer type x boundary-operand matrix at full width (incl. LINT, ULINT) is judged against exact arithmetic computed in the harness, not by TLC (32-bit integers)",
         "FOR whose final increment leaves the control variable's type: normal termination or Overflow accepted; two faulting sub-expressions of one indexed assignment: either fault accepted",
         "a mismatch in a program that contains an assignment whose right-hand side is not of the target's declared type is attributed to the listed finding (non-converting assignment); programs without such an assignment are judged exactly"])
